@@ -26,7 +26,7 @@ def c03(tier, seed):
 
 
 def c05(tier, seed):
-    return combine(fam_list(tier, ['core_q', 'frac_q', 'split_q', 'split5_q', 'two_split_q'], ['core_t', 'split_t', 'two_q']) + [trace_family(tier, seed)], 'uncovered',
+    return combine(fam_list(tier, ['core_q', 'frac_q', 'split_q', 'split5_q', 'residue_q', 'two_split_q'], ['core_t', 'split_t', 'two_q']) + [trace_family(tier, seed)], 'uncovered',
                    'every cell ledger of the family, covered or not; non-trivial = uncovered ledgers (must be refused '
                    'naming security and date); covered ones must be accepted')
 
